@@ -231,6 +231,11 @@ def compare(I, op, a, b, node):
         return sym.num_cmp(sop, a, b)
     if isinstance(a, str) and isinstance(b, str):
         return {"<": a < b, "<=": a <= b, ">": a > b, ">=": a >= b}[sop]
+    if isinstance(a, (str, SStr)) and isinstance(b, (str, SStr)):
+        # lexicographic by code point, as z3's str.< / str.<=
+        ta = a.t if isinstance(a, SStr) else z3.StringVal(a)
+        tb = b.t if isinstance(b, SStr) else z3.StringVal(b)
+        return simp({"<": ta < tb, "<=": ta <= tb, ">": tb < ta, ">=": tb <= ta}[sop])
     if isinstance(a, tuple) and isinstance(b, tuple) and not any(is_sym(x) for x in a + b):
         return {"<": a < b, "<=": a <= b, ">": a > b, ">=": a >= b}[sop]
     if a is None or b is None:
@@ -893,11 +898,24 @@ def _bool(I, x=False):
     return I.truth(x)
 
 
-def _sorted(I, it, **kw):
+def _sorted(I, it, key=None, reverse=False):
     items = list(I.iterate(it, None))
-    if kw or any(is_sym(x) or not isinstance(x, (int, str, Fraction, tuple)) for x in items):
-        raise Unsupported("sorted of symbolic / keyed items")
-    return PList(sorted(items))
+    if reverse is not False:
+        raise Unsupported("sorted(reverse=...)")
+    keys = items if key is None else [I.call(key, [x], {}, None, getattr(key, "closure", None)) for x in items]
+    if not any(is_sym(k) or not isinstance(k, (int, str, Fraction, tuple)) for k in keys):
+        order = sorted(range(len(items)), key=lambda i: keys[i])
+        return PList([items[i] for i in order])
+    if len(items) > 5:
+        raise Unsupported("sorted of more than 5 symbolic keys")
+    # stable insertion sort, one decision per comparison (each order of the keys is its own path)
+    out = []
+    for x, k in zip(items, keys):
+        pos = len(out)
+        while pos > 0 and I.ctx.branch(I.truth(compare(I, ast.Lt(), k, out[pos - 1][1], None))):
+            pos -= 1
+        out.insert(pos, (x, k))
+    return PList([x for x, _ in out])
 
 
 def _reversed(I, it):
